@@ -14,6 +14,7 @@ import Mathlib.Tactic.Linarith
 import Mathlib.Tactic.Positivity
 import Mathlib.Tactic.NormNum
 import Mathlib.Data.Rat.Floor
+import Mathlib.Analysis.SpecialFunctions.Pow.Real
 
 namespace BytomModel.Props.C35
 open BytomModel.Model.BanScore BytomModel.Fixed
@@ -257,10 +258,236 @@ theorem increase_persistent (d : Int → α) (s : State α) (p tr : Nat) (t : In
     (increase d fl s p tr t).1.persistent = u32 (s.persistent + p) := by
   unfold increase; simp only; split <;> rfl
 
+/-! ### closed form over histories -/
+
+/-- one `increase(p, tr, t)` call -/
+structure Ev where
+  p : Nat
+  tr : Nat
+  t : Int
+
+def stepEv (d : Int → α) (s : State α) (e : Ev) : State α := (increase d fl s e.p e.tr e.t).1
+
+def runEvs (d : Int → α) (s : State α) (evs : List Ev) : State α := evs.foldl (stepEv d) s
+
+/-- the documented transient score at clock `T`: every transient amount decayed by its age -/
+def ideal (d : Int → α) : List Ev → Int → α
+  | [], _ => 0
+  | e :: rest, T => (if 0 < e.tr then (e.tr : α) * d (T - e.t) else 0) + ideal d rest T
+
+/-- the histories the closed form is proved for (relative to the state they start in):
+    clock differences fit int64; an event carries no transient amount or at least 2 (a stored
+    transient of ≤ 1 is never decayed by the code); the clock does not run backwards between
+    transient events and they are at most `Lifetime` apart (a longer gap resets the transient part) -/
+def GoodFrom (d : Int → α) : State α → List Ev → Prop
+  | _, [] => True
+  | s, e :: rest =>
+    InRange e.t s.lastUnix ∧
+    (e.tr = 0 ∨ (2 ≤ e.tr ∧ (s.transient = 0 ∨ (s.lastUnix ≤ e.t ∧ e.t - s.lastUnix ≤ 1800)))) ∧
+    GoodFrom d (stepEv d s e) rest
+
+theorem ideal_append (d : Int → α) (a b : List Ev) (T : Int) : ideal d (a ++ b) T = ideal d a T + ideal d b T := by
+  induction a with
+  | nil => simp [ideal]
+  | cons e r ih => simp [ideal, ih, add_assoc]
+
+theorem ideal_shift (d : Int → α) (hmul : ∀ a b, 0 ≤ a → 0 ≤ b → d (a + b) = d a * d b) (pre : List Ev) (T T' : Int)
+    (hpre : ∀ e ∈ pre, 0 < e.tr → e.t ≤ T) (hT : T ≤ T') : ideal d pre T * d (T' - T) = ideal d pre T' := by
+  induction pre with
+  | nil => simp [ideal]
+  | cons e r ih =>
+    have ihr := ih (fun x hx => hpre x (by simp [hx]))
+    simp only [ideal, add_mul, ihr]
+    congr 1
+    split
+    · rename_i h
+      have := hpre e (by simp) h
+      have e1 : T' - e.t = (T - e.t) + (T' - T) := by ring
+      rw [e1, hmul _ _ (by omega) (by omega)]; ring
+    · simp
+
+theorem ideal_no_transient (d : Int → α) (pre : List Ev) (T : Int) (h : ∀ e ∈ pre, e.tr = 0) : ideal d pre T = 0 := by
+  induction pre with
+  | nil => rfl
+  | cons e r ih =>
+    have := h e (by simp)
+    simp [ideal, this, ih (fun x hx => h x (by simp [hx]))]
+
+/-- the invariant carried along a good history -/
+structure Tracks (d : Int → α) (s : State α) (pre : List Ev) : Prop where
+  tr : s.transient = ideal d pre s.lastUnix
+  past : ∀ e ∈ pre, 0 < e.tr → e.t ≤ s.lastUnix
+  big : s.transient = 0 ∨ 2 ≤ s.transient
+  fresh : s.transient = 0 → ∀ e ∈ pre, e.tr = 0
+  pers : s.persistent = (pre.map (·.p)).sum % two32
+
+theorem tracks_step (d : Int → α) (hd : Decay d) (hmul : ∀ a b, 0 ≤ a → 0 ≤ b → d (a + b) = d a * d b)
+    (s : State α) (pre : List Ev) (e : Ev) (h : Tracks d s pre)
+    (hr : InRange e.t s.lastUnix)
+    (hg : e.tr = 0 ∨ (2 ≤ e.tr ∧ (s.transient = 0 ∨ (s.lastUnix ≤ e.t ∧ e.t - s.lastUnix ≤ 1800)))) :
+    Tracks d (stepEv d s e) (pre ++ [e]) := by
+  have hp : (stepEv d s e).persistent = ((pre ++ [e]).map (·.p)).sum % two32 := by
+    unfold stepEv; rw [increase_persistent, h.pers]; unfold u32
+    simp [Nat.add_mod]
+  rcases hg with h0 | ⟨h2, hcase⟩
+  · -- no transient amount: only the persistent part changes
+    have hs : (stepEv d s e).transient = s.transient ∧ (stepEv d s e).lastUnix = s.lastUnix := by
+      unfold stepEv increase; simp [h0]
+    refine ⟨?_, ?_, ?_, ?_, hp⟩
+    · rw [hs.1, hs.2, ideal_append, h.tr]; simp [ideal, h0]
+    · intro x hx hxt; rw [hs.2]; simp at hx
+      rcases hx with hx | rfl
+      · exact h.past x hx hxt
+      · omega
+    · rw [hs.1]; exact h.big
+    · intro hz x hx; rw [hs.1] at hz; simp at hx
+      rcases hx with hx | rfl
+      · exact h.fresh hz x hx
+      · exact h0
+  · have htr : 0 < e.tr := by omega
+    have hcast : (2 : α) ≤ (e.tr : α) := by exact_mod_cast h2
+    have hs : (stepEv d s e).lastUnix = e.t ∧
+        (stepEv d s e).transient = decayed d s (elapsed e.t s.lastUnix) + (e.tr : α) := by
+      unfold stepEv increase; simp [htr]
+    -- the decayed old transient is the documented value at the new clock
+    have hdec : decayed d s (elapsed e.t s.lastUnix) = ideal d pre e.t ∧ 0 ≤ ideal d pre e.t := by
+      rcases hcase with hz | ⟨hle, hgap⟩
+      · have hi : ideal d pre e.t = 0 := ideal_no_transient d pre e.t (h.fresh hz)
+        rw [hi]
+        refine ⟨?_, le_refl _⟩
+        unfold decayed; rw [hz]; simp
+      · have hsh := ideal_shift d hmul pre s.lastUnix e.t h.past hle
+        rw [← h.tr] at hsh
+        have hnn : 0 ≤ s.transient := by
+          rcases h.big with hb | hb
+          · rw [hb]
+          · linarith
+        have hdp := hd.pos (e.t - s.lastUnix) (by omega)
+        refine ⟨?_, by rw [← hsh]; positivity⟩
+        rw [← hsh]
+        unfold decayed
+        rw [elapsed_eq hr, if_neg (by simp only [lifetime]; omega)]
+        split
+        · rfl
+        · rename_i hc
+          rw [not_and_or] at hc
+          rcases hc with hc | hc
+          · -- stored transient ≤ 1: by `big` it is 0
+            rcases h.big with hb | hb
+            · rw [hb]; simp
+            · exfalso; apply hc; simp only [Nat.cast_one]; linarith
+          · have : e.t - s.lastUnix = 0 := by omega
+            rw [this, hd.zero, mul_one]
+    refine ⟨?_, ?_, ?_, ?_, hp⟩
+    · rw [hs.1, hs.2, ideal_append, hdec.1]
+      simp [ideal, htr, hd.zero]
+    · intro x hx hxt; rw [hs.1]; simp at hx
+      rcases hx with hx | rfl
+      · rcases hcase with hz | ⟨hle, _⟩
+        · have := h.fresh hz x hx; omega
+        · have := h.past x hx hxt; omega
+      · exact le_refl _
+    · right; rw [hs.2, hdec.1]; linarith [hdec.2]
+    · intro hz; exfalso
+      rw [hs.2, hdec.1] at hz; linarith [hdec.2]
+
+theorem tracks_run (d : Int → α) (hd : Decay d) (hmul : ∀ a b, 0 ≤ a → 0 ≤ b → d (a + b) = d a * d b)
+    (evs : List Ev) (hg : GoodFrom d (zero : State α) evs) : Tracks d (runEvs d zero evs) evs := by
+  suffices ∀ (evs pre : List Ev) (s : State α), Tracks d s pre → GoodFrom d s evs → Tracks d (runEvs d s evs) (pre ++ evs) by
+    have z : Tracks d (zero : State α) [] :=
+      ⟨by simp [zero, ideal], by simp, Or.inl (by simp [zero]), by simp, by simp [zero, two32]⟩
+    have := this evs [] zero z hg
+    simpa only [List.nil_append] using this
+  intro evs
+  induction evs with
+  | nil => intro pre s h _; simpa [runEvs] using h
+  | cons e rest ih =>
+    intro pre s h hg
+    have := ih (pre ++ [e]) (stepEv d s e) (tracks_step d hd hmul s pre e h hg.1 hg.2.1) hg.2.2
+    simpa [runEvs] using this
+
+/-- **closed form**: after any good history from the zero value, the transient field is the sum
+    of the transient amounts, each decayed by its age at the last transient event, and the
+    persistent field is the sum of the persistent amounts modulo 2^32 -/
+theorem transient_closed_form (d : Int → α) (hd : Decay d) (hmul : ∀ a b, 0 ≤ a → 0 ≤ b → d (a + b) = d a * d b)
+    (evs : List Ev) (hg : GoodFrom d (zero : State α) evs) :
+    (runEvs d zero evs).transient = ideal d evs (runEvs d zero evs).lastUnix ∧
+    (runEvs d zero evs).persistent = (evs.map (·.p)).sum % two32 :=
+  ⟨(tracks_run d hd hmul evs hg).tr, (tracks_run d hd hmul evs hg).pers⟩
+
+/-- **the score over a history**: read at clock `t` within the lifetime of the last transient
+    event, the score is `Σ persistent + ⌊Σ transientᵢ · d(t − tᵢ)⌋` (in `uint32`) -/
+theorem score_closed_form (d : Int → α) (hd : Decay d) (hmul : ∀ a b, 0 ≤ a → 0 ≤ b → d (a + b) = d a * d b)
+    (evs : List Ev) (hg : GoodFrom d (zero : State α) evs) (t : Int)
+    (hne : ∃ e ∈ evs, 0 < e.tr)
+    (hr : InRange t (runEvs d zero evs).lastUnix)
+    (h2 : 0 ≤ t - (runEvs d zero evs).lastUnix) (h3 : t - (runEvs d zero evs).lastUnix ≤ 1800) :
+    score d fl (runEvs d zero evs) t = u32 ((evs.map (·.p)).sum % two32 + u32 (fl (ideal d evs t))) := by
+  have T := tracks_run d hd hmul evs hg
+  have h1 : (1 : α) ≤ (runEvs d zero evs).transient := by
+    rcases T.big with hz | hb
+    · exfalso
+      have ⟨e, he, het⟩ := hne
+      have := T.fresh hz e he
+      omega
+    · linarith
+  rw [score_formula d _ t hr h1 h2 h3, T.pers]
+  have := ideal_shift d hmul evs _ t T.past (by omega)
+  rw [← T.tr] at this
+  rw [this]
+
+/-! ### the documented decay function satisfies everything the theorems assume -/
+
+/-- the documented decay: `2^(-t/60)` -/
+noncomputable def dReal (t : Int) : ℝ := (2 : ℝ) ^ (-(t : ℝ) / 60)
+
+theorem dReal_decay : Decay dReal := by
+  refine ⟨?_, ?_, ?_⟩
+  · simp [dReal]
+  · intro t _; unfold dReal; positivity
+  · intro t ht
+    unfold dReal
+    apply Real.rpow_le_one_of_one_le_of_nonpos (by norm_num)
+    have : (0 : ℝ) ≤ (t : ℝ) := by exact_mod_cast ht
+    linarith
+
+theorem dReal_mul (a b : Int) (_ : 0 ≤ a) (_ : 0 ≤ b) : dReal (a + b) = dReal a * dReal b := by
+  unfold dReal
+  rw [← Real.rpow_add (by norm_num)]
+  congr 1
+  push_cast; ring
+
+theorem dReal_half : dReal 60 = 1 / 2 := by
+  unfold dReal
+  have : (-((60 : Int) : ℝ) / 60) = -1 := by norm_num
+  rw [this, Real.rpow_neg_one]; norm_num
+
+/-- 60-second half-life of the documented decay -/
+theorem dReal_halflife (x : ℝ) (dt : Int) (h : 0 ≤ dt) : x * dReal (dt + 60) = x * dReal dt / 2 :=
+  halflife dReal dReal_mul dReal_half x dt h
+
+/-- the closed form for the documented decay over the reals -/
+theorem score_closed_form_real (evs : List Ev) (hg : GoodFrom dReal (zero : State ℝ) evs) (t : Int)
+    (hne : ∃ e ∈ evs, 0 < e.tr) (hr : InRange t (runEvs dReal zero evs).lastUnix)
+    (h2 : 0 ≤ t - (runEvs dReal zero evs).lastUnix) (h3 : t - (runEvs dReal zero evs).lastUnix ≤ 1800) :
+    score dReal fl (runEvs dReal zero evs) t = u32 ((evs.map (·.p)).sum % two32 + u32 (fl (ideal dReal evs t))) :=
+  score_closed_form dReal dReal_decay dReal_mul evs hg t hne hr h2 h3
+
 /-! ### the hypotheses are satisfiable on non-trivial values (tests, not proofs of the property) -/
 
 example : Decay (fun t : Int => if t = 0 then (1 : ℚ) else 1 / 2) :=
   ⟨by simp, fun t _ => by split <;> norm_num, fun t _ => by split <;> norm_num⟩
+example : GoodFrom dReal (zero : State ℝ) [⟨0, 20, 1600000000⟩, ⟨20, 0, 1600000030⟩, ⟨0, 20, 1600000060⟩] := by
+  have l1 : (stepEv dReal (zero : State ℝ) ⟨0, 20, 1600000000⟩).lastUnix = 1600000000 := by simp [stepEv, increase]
+  have l2 : (stepEv dReal (stepEv dReal (zero : State ℝ) ⟨0, 20, 1600000000⟩) ⟨20, 0, 1600000030⟩).lastUnix = 1600000000 := by
+    simp [stepEv, increase]
+  refine ⟨?_, Or.inr ⟨by norm_num, Or.inl (by simp [zero])⟩, ?_⟩
+  · unfold InRange; simp [zero]
+  refine ⟨?_, Or.inl rfl, ?_⟩
+  · unfold InRange; rw [l1]; norm_num
+  refine ⟨?_, Or.inr ⟨by norm_num, Or.inr ?_⟩, trivial⟩
+  · unfold InRange; rw [l2]; norm_num
+  · rw [l2]; norm_num
 example : InRange 1600000060 1600000000 := by unfold InRange; norm_num
 
 end BytomModel.Props.C35
